@@ -352,7 +352,7 @@ def run(tier, seed, replay=None):
         if c == MODEL_ERR:
             errors.append("model error: Typed.dec_of_text (str_of_dec d) is not d for %s" % driven[i][2][:200])
     known = {e["key"]: e for e in common.known_findings(PROP)}
-    violations, known_seen, reported = [], [], set()
+    violations, known_seen, reported, per_group = [], [], set(), {}
     for i in sorted(hard):
         name, vi, coq, vc = driven[i]
         key = finding_key(name, vc)
@@ -360,9 +360,10 @@ def run(tier, seed, replay=None):
             if key not in reported:
                 reported.add(key); known_seen.append("%s (%s): %s" % (key, LAYER[hard[i]].split(":")[0], known[key]["description"]))
             continue
-        if (key, hard[i]) in reported or len(violations) >= 8:
+        group = key.split("-")[0]          # writer group / type
+        if (key, hard[i]) in reported or per_group.get(group, 0) >= 2 or len(violations) >= 16:
             continue
-        reported.add((key, hard[i]))
+        reported.add((key, hard[i])); per_group[group] = per_group.get(group, 0) + 1
         rp = common.write_replay(PROP, seed, "%d" % i, dict(layer=LAYER[hard[i]], code=hard[i], input_class=key,
                                  case=dict(carrier=name, value=repr(vals[vi])), coq_case=coq, known_finding_key=None))
         violations.append((rp, False))
